@@ -610,11 +610,10 @@ class SymNP:
         if not isinstance(newshape, (tuple, list)):
             newshape = (newshape,)
         newshape = list(newshape)
-        unknown = [k for k, s in enumerate(newshape) if is_int(s) and s == -1]
+        # (NumPy treats every negative entry as "unknown", not only -1)
+        unknown = [k for k, s in enumerate(newshape) if s < 0]
         if len(unknown) > 1:
             raise ValueError("can only specify one unknown dimension")
-        if any(s < -1 for s in newshape):
-            raise ValueError("negative dimensions not allowed")
         size = a.size
         if unknown:
             rest = _prod(s for k, s in enumerate(newshape) if k != unknown[0])
@@ -789,7 +788,16 @@ class SymNP:
         for sub, opnd in zip(ins, operands):
             if len(sub) != opnd.ndim:
                 raise ValueError("einstein sum subscripts string contains too many subscripts for operand")
+            own = {}
             for c, n in zip(sub, opnd.shape):
+                # within one operand a repeated label must have one length (NumPy
+                # treats a leading 0 as "not yet set")
+                if c in own and own[c] != 0:
+                    if own[c] != n:
+                        raise ValueError("dimensions in single operand for collapsing index don't match")
+                else:
+                    own[c] = n
+            for c, n in own.items():
                 if c in lens:
                     if lens[c] == 1:
                         lens[c] = n
@@ -830,6 +838,8 @@ class SymNP:
         if not _isarr(a) or not _isarr(b) or a.ndim == 0 or b.ndim == 0:
             raise ValueError("matmul: Input operand does not have enough dimensions")
         if a.ndim == 1 and b.ndim == 1:
+            if a.shape[0] != b.shape[0]:
+                raise ValueError("matmul: Input operand 1 has a mismatch in its core dimension 0")
             return self.einsum("i,i->", a, b)
         if a.ndim == 1:
             r = self.matmul(self.expand_dims(a, 0), b)
@@ -863,7 +873,27 @@ class SymNP:
             return self.multiply(a, b)
         if a.ndim <= 2 and b.ndim <= 2:
             return self.matmul(a, b)
-        raise SymnpUnsupported("dot with ndim > 2")
+        # N-d: sum over the last axis of a and the second-to-last of b
+        kb = b.ndim - 2 if b.ndim >= 2 else 0
+        if a.shape[-1] != b.shape[kb]:
+            raise ValueError("shapes not aligned")
+        K = a.shape[-1]
+        bshape_rest = tuple(n for d, n in enumerate(b.shape) if d != kb)
+        shape = a.shape[:-1] + bshape_rest
+        rdt = np.result_type(a.dtype, b.dtype)
+        alg = self.alg
+        na = a.ndim - 1
+
+        def at(idx):
+            ai = idx[:na]
+            brest = list(idx[na:])
+
+            def body(rs):
+                k, = rs
+                bi = brest[:kb] + [k] + brest[kb:]
+                return alg.op("mul", alg.cast(rdt, a.at(ai + (k,))), alg.cast(rdt, b.at(tuple(bi))))
+            return alg.reduce("sum", [(0, K)], body)
+        return LArr(self, shape, rdt, at)
 
     def vdot(self, a, b):
         return self.einsum("i,i->", self.conj(self.ravel(a)), self.ravel(b))
